@@ -34,6 +34,9 @@ type ReplayFile struct {
 	// behind inside the code under test (a pool, a cache, a package variable):
 	// the replay is then the whole sequence, in one fresh process.
 	Prelude []PreludeRun `json:"prelude,omitempty"`
+	// Cold: the run was the first and only run of its process (a cold-start run);
+	// every other run is replayed in a process that was warmed up like a worker.
+	Cold bool `json:"cold,omitempty"`
 }
 
 // PreludeRun is one earlier run of a history replay.  Without a tape it is
@@ -181,6 +184,9 @@ func shrinkMain(fs *flag.FlagSet, args []string) {
 		die2("unknown property %s", rf.Property)
 	}
 	rf.OrigTapeLen = len(rf.Tape)
+	if !rf.Cold {
+		warmUp(p, rf.BaseSeed, rf.Tier)
+	}
 	if *noShrink {
 		fillReplay(p, &rf)
 		if err := writeJSON(*out, &rf); err != nil {
@@ -240,6 +246,9 @@ func replayMain(fs *flag.FlagSet, args []string) {
 	}
 	if p.Variant == "I" && !rt.Instrumented() {
 		die2("replay of %s needs the instrumented build", p.ID)
+	}
+	if !rf.Cold {
+		warmUp(p, rf.BaseSeed, rf.Tier)
 	}
 	for i := range rf.Prelude {
 		pr := &rf.Prelude[i]
